@@ -369,7 +369,7 @@ def table_cases(cfg):
 def references(ctx):
     r = ctx.rng('dtperiod-refs')
     bdays = calcorr.boundary_days()
-    n_b, n_s = (len(bdays), 300) if ctx.thorough else (36, 20)
+    n_b, n_s = (200, 100) if ctx.thorough else (36, 20)
     days = [dt.date(2019, 6, 12), dt.date(2020, 2, 28), dt.date(2020, 2, 29), dt.date(2019, 12, 31), dt.date(2021, 1, 1)] + \
         r.sample(bdays, min(n_b, len(bdays))) + calcorr.seeded_days(r, n_s)
     times = calcorr.TIMES + [(10, 30, 15), (23, 0, 0), (0, 59, 59)]
